@@ -428,6 +428,7 @@ func TestRun(t *testing.T) {
 	keepAliveLeftovers(rec, vr.Scale(8, 200))
 	unsendablePings(rec, vr.Scale(12, 120))
 	abandonedPing(rec, vr.Scale(9, 90))
+	answeredAsyncPing(rec, vr.Scale(10, 100))
 	rec.Assume("checked at quiescent points only: all calls returned, the relay moved nothing for several polls, housekeeping ran at +2h..+16h (beyond the 247 s reply lifetime, the block-wise timeouts and the retransmission budget)")
 	rec.Assume("a history in which a connection-level error closed a connection ends there (tables of a closed connection are not measured)")
 }
